@@ -37,6 +37,7 @@ def plan(tier, seed):
                   'sizes': [1024, 2048] + ([] if q else [4096])})
   for i in range(12 if q else 16):
     specs.append({'shard': 'lhw-%d' % i, 'n': 3 if q else 18, 'weight': 8,
+                  'corner': 40 if q else 160,
                   'sizes': [1024, 2048] + ([] if q else [4096])})
   for i in range(4):
     specs.append({'shard': 'smooth-%d' % i, 'n': 5 if q else 40,
@@ -195,6 +196,21 @@ def run_lhw(ctx, spec):
     _outcome(ctx, 'both-low-weight' + ('/clustered-top' if top else ''),
              flagged, n, {'hw': (bin(p).count('1'), bin(qq).count('1')),
                           'clustered': (c1, c2), 'nbits': nbits})
+  # the corner of the region: smallest moduli, weights next to the limit (the
+  # search runs longest there; a changed cutoff or threshold shows here first)
+  for i in range(spec.get('corner', 0)):
+    if not ctx.want('k%d' % i) or ctx.spent():
+      continue
+    p = rsagen.low_weight_prime(rng, 512, rng.randint(29, 32))
+    qq = rsagen.low_weight_prime(rng, 512, rng.randint(29, 32))
+    if p == qq:
+      continue
+    n = p * qq
+    flagged, _ = _run(ctx, chk, n)
+    ctx.count('lhw_corner_moduli')
+    _outcome(ctx, 'both-low-weight', flagged, n,
+             {'hw': (bin(p).count('1'), bin(qq).count('1')), 'corner': True,
+              'nbits': n.bit_length()})
   try:
     ctx.sample({'family': 'both primes of low Hamming weight',
                 'weights': [bin(p).count('1'), bin(qq).count('1')], 'n': n})
@@ -433,7 +449,8 @@ def finalize(agg, tier):
   for k in ('hit:smooth/one', 'hit:smooth/both', 'hit:smooth/one/maxpow',
             'hit:smooth/both/maxpow', 'hit:smooth/user-bound',
             'hit:smooth/cofactor',
-            'pollard_product_observed', 'decoy_instances_built', 'instance_history:1',
+            'pollard_product_observed', 'decoy_instances_built',
+            'lhw_corner_moduli', 'instance_history:1',
             'instance_history:2', 'instance_history:3'):
     if not c.get(k):
       inc.append('reach counter %s is zero' % k)
